@@ -31,6 +31,7 @@ Fixpoint embS (x: st) : node :=
   | SDo b c => VNode C_DoWhile [embC c; embS b] None
   | SFor i c n b => VNode C_For [oembC i; oembC c; oembC n; embS b] None
   | SBlock items => VNode C_Compound [match items with [] => VNone | _ => VList (map embS items) end] None
+  | SLabel l b => VNode C_Label [VStr l; embS b] None
   end.
 
 Definition ind (lv: Z) : str := repeat 32%N (Z.to_nat lv).
@@ -62,6 +63,7 @@ Fixpoint vis (x: st) (lv: Z) : str :=
   | SDo b c => s "do" ++ nl ++ wrapg (ind (lv + 2)) b (vis b lv) ++ ind lv ++ s "while (" ++ ptext c ++ s ");"
   | SFor i c n b => s "for (" ++ ot1 i ++ s ";" ++ ot2 c ++ s ";" ++ ot2 n ++ s ")" ++ nl ++ wrapg (ind (lv + 2)) b (vis b lv)
   | SBlock items => ind lv ++ s "{" ++ nl ++ concat_str (map (fun y => wrapg (ind (lv + 2)) y (vis y (lv + 2))) items) ++ ind lv ++ s "}" ++ nl
+  | SLabel l b => l ++ s ":" ++ nl ++ wrapg (ind lv) b (vis b lv)
   end.
 Definition gst (lv: Z) (y: st) : str := wrapg (ind (lv + 2)) y (vis y lv).    (* _generate_stmt(y, add_indent=True) at level lv *)
 Definition gs0 (lv: Z) (y: st) : str := wrapg (ind lv) y (vis y lv).          (* _generate_stmt(y) at level lv *)
@@ -76,6 +78,7 @@ Fixpoint cost (x: st) : nat :=
   | SWhile c b | SDo b c => 3 * size c + cost b + 2
   | SFor i c n b => 3 * osize i + 3 * osize c + 3 * osize n + cost b + 2
   | SBlock items => list_sum (map cost items) + 2
+  | SLabel _ b => cost b + 2
   | _ => 2
   end.
 
@@ -99,7 +102,7 @@ Lemma gs_tail : forall f x lv pre v, visit C rp f (embS x) lv = GOk (v, lv) ->
    else if is_c C C_If (embS x) then gbind (visit C rp f (embS x)) (fun t => gret (pre ++ t))
    else gbind (visit C rp f (embS x)) (fun t => gret (pre ++ t ++ [10%N]))) lv = GOk (wrapg pre x v, lv).
 Proof.
-  intros f x lv pre v Hv. unfold wrapg. destruct x as [e| |o| | |l|c th el|c b|b c|i c nx b|items]; cbn [embS isexpr isif isblock] in *.
+  intros f x lv pre v Hv. unfold wrapg. destruct x as [e| |o| | |l|c th el|c b|b c|i c nx b|items|lb b]; cbn [embS isexpr isif isblock] in *.
   - rewrite semi_emb. unfold gbind. rewrite Hv. reflexivity.
   - change (stmt_with_semicolon C (VNode C_EmptyStatement [] None)) with false. cbv iota.
     change (is_c C C_Compound (VNode C_EmptyStatement [] None)) with false. change (is_c C C_If (VNode C_EmptyStatement [] None)) with false. cbv iota.
@@ -123,6 +126,8 @@ Proof.
     change (is_c C C_Compound N) with false. change (is_c C C_If N) with false. cbv iota. unfold gbind. rewrite Hv. reflexivity.
   - set (N := VNode C_Compound _ None) in *. change (stmt_with_semicolon C N) with false. cbv iota.
     change (is_c C C_Compound N) with true. cbv iota. exact Hv.
+  - set (N := VNode C_Label _ None) in *. change (stmt_with_semicolon C N) with false. cbv iota.
+    change (is_c C C_Compound N) with false. change (is_c C C_If N) with false. cbv iota. unfold gbind. rewrite Hv. reflexivity.
 Qed.
 
 Lemma gs_run_t : forall f x lv v, visit C rp f (embS x) lv = GOk (v, lv) ->
@@ -179,6 +184,11 @@ Lemma visit_compound : forall f bi co,
   gret (i0 ++ s "{" ++ [10%N] ++ body ++ i2 ++ s "}" ++ [10%N])))))).
 Proof. reflexivity. Qed.
 
+Lemma visit_label : forall f l b co,
+  visit C rp (S f) (VNode C_Label [VStr l; b] co) =
+  gbind (generate_stmt C rp f b false) (fun ss => gret (l ++ s ":" ++ [10%N] ++ ss)).
+Proof. reflexivity. Qed.
+
 Lemma truthy_emb : forall e, truthy_v C (embC e) = true.
 Proof. destruct e; reflexivity. Qed.
 Lemma truthy_embS : forall x, truthy_v C (embS x) = true.
@@ -207,7 +217,7 @@ Proof.
   { intros y f Hy Hwy Hfy. destruct f as [|f]; [lia|]. apply gs_run_t. apply IH; [exact Hy|exact Hwy|lia]. }
   assert (HE: forall e f, wf e -> 3 * size e <= f -> visit C rp f (embC e) lv = GOk (ptext e, lv)).
   { intros e f He Hfe. exact (visit_prints_x C rp (size e) e (le_n _) He f lv Hfe). }
-  destruct x as [e| |o| | |l|c th el|c b|b c|i c nx b|items]; cbn [ssize] in Hn; cbn [swf] in Hw; cbn [cost] in Hf; cbn [embS].
+  destruct x as [e| |o| | |l|c th el|c b|b c|i c nx b|items|lb b]; cbn [ssize] in Hn; cbn [swf] in Hw; cbn [cost] in Hf; cbn [embS].
   - apply HE; [exact Hw|lia].
   - destruct fuel as [|fu]; [lia|]. reflexivity.
   - destruct fuel as [|fu]; [lia|]. rewrite visit_return. destruct o as [e|]; cbn [oembC osize owf] in *; [|reflexivity].
@@ -250,6 +260,9 @@ Proof.
         destruct fu as [|fu']; [lia|]. apply gs_run_f. apply IH; [lia|exact Hwy|lia]. }
       rewrite HM. unfold gret at 1. unfold gbind at 1. unfold add_indent at 1. replace (lv + 2 + -2)%Z with lv by lia.
       unfold gbind at 1. unfold make_indent, get_indent. unfold gbind at 1. unfold gret. cbn [vis]. reflexivity.
+  - (* label *)
+    destruct fuel as [|fu]; [lia|]. rewrite visit_label. destruct fu as [|fu']; [lia|].
+    unfold gbind at 1. rewrite (gs_run_f fu' b lv (vis b lv)) by (apply IH; [lia|exact Hw|lia]). reflexivity.
 Qed.
 
 (* what _generate_stmt prints for a statement in a sub-statement position *)
@@ -276,6 +289,7 @@ Fixpoint sexprs (Q: ex -> Prop) (x: st) : Prop :=
   | SIf c th el => Q c /\ sexprs Q th /\ match el with Some e => sexprs Q e | None => True end
   | SWhile c b | SDo b c => Q c /\ sexprs Q b
   | SFor i c n b => oall Q i /\ oall Q c /\ oall Q n /\ sexprs Q b
+  | SLabel l b => despace2 l = l /\ sexprs Q b
   | SBlock items => (fix al (l: list st) : Prop := match l with [] => True | y :: r => sexprs Q y /\ al r end) items
   | _ => True
   end.
@@ -320,7 +334,7 @@ Proof.
   { intros y L L' Hy Hsy. rewrite wrapg_text by apply despace2_ind. apply IH; assumption. }
   assert (HG: forall y L, ssize y <= n -> sexprs (eok rp) y -> despace2 (wrapg (ind (L + 2)) y (vis rp y L)) = spell (stoks rp y)).
   { intros y L. apply HG0. }
-  destruct x as [e| |o| | |l|c th el|c b|b c|i c nx b|items]; cbn [ssize] in Hn; cbn [sexprs] in Hx; unfold vt; cbn [isexpr stoks vis].
+  destruct x as [e| |o| | |l|c th el|c b|b c|i c nx b|items|lb b]; cbn [ssize] in Hn; cbn [sexprs] in Hx; unfold vt; cbn [isexpr stoks vis].
   - rewrite despace2_app, spell_app, (eok_text rp e Hx). reflexivity.
   - reflexivity.
   - destruct o as [e|]; cbn [oall oxt] in *; [|reflexivity]. rewrite !despace2_app, (eok_text rp e Hx). unfold kw. rewrite spell_cons, spell_app. reflexivity.
@@ -337,6 +351,7 @@ Proof.
     rewrite !despace2_app, (oall_text rp i Hi), (oall_text_sp rp c Hc), (oall_text_sp rp nx Hnx), (HG b lv ltac:(lia) Hb). reflexivity.
   - unfold kw. rewrite spell_cons, spell_app. rewrite !despace2_app, !despace2_ind. cbn [app].
     rewrite (concat_text rp _ items); [reflexivity|]. intros y Hy. apply HG0; [pose proof (in_ssum items y Hy); lia|exact (sexprsl_in _ items y Hx Hy)].
+  - destruct Hx as (Hl & Hb). unfold kw. rewrite !spell_cons. rewrite !despace2_app, Hl, (HG0 b lv lv ltac:(lia) Hb). reflexivity.
 Qed.
 
 Theorem gst_tokens : forall rp x, sexprs (eok rp) x -> forall lv, despace2 (gst rp lv x) = spell (stoks rp x).
@@ -367,5 +382,24 @@ Example statement_example :
   goto out;
 }
 
+".
+Proof. split; [cbn; repeat split; solve [reflexivity | discriminate | lia]|]. eexists. split; [vm_compute; reflexivity|split; vm_compute; reflexivity]. Qed.
+
+(* labels: `again: if (a) in: a++;  out: ;` in a block *)
+Definition ex_l : st :=
+  SBlock [SLabel (s2l "again") (SIf (XId (s2l "a")) (SLabel (s2l "in") (SExpr (XPost (s2l "++") (XId (s2l "a"))))) None); SLabel (s2l "out") SEmpty].
+Example label_example :
+  swf ex_l /\ exists t, generate_stmt nat false 80 (embS nat ex_l) true 0%Z = GOk (t, 0%Z) /\ despace2 t = spell (stoks false ex_l) /\
+  t = s2l "{
+  again:
+  if (a)
+    in:
+  a++;
+
+
+  out:
+  ;
+
+}
 ".
 Proof. split; [cbn; repeat split; solve [reflexivity | discriminate | lia]|]. eexists. split; [vm_compute; reflexivity|split; vm_compute; reflexivity]. Qed.
